@@ -573,6 +573,11 @@ func (h *harness) buildNode() {
 		want := h.execNext
 		h.execNext = ev.Height + 1
 		h.mu.Unlock()
+		// the block store holds a block before the application is asked to execute it (consensus and the
+		// sync reactors save first; the handshake relies on app height <= store height)
+		if sh := n.blockStore.Height(); sh < ev.Height {
+			h.liveFinding("v0-application-ahead-of-block-store", fmt.Sprintf("the application got BeginBlock for height %d while the block store is at height %d: the block is executed before it is saved", ev.Height, sh))
+		}
 		rec := w.rec(ev.Height)
 		okHash := rec != nil && strings.EqualFold(ev.Hash, hex.EncodeToString(rec.BlockID.Hash))
 		h.log.add("exec", "", ev.Height, fmt.Sprintf("canonical=%v", okHash))
@@ -750,6 +755,27 @@ func runScenario(sc *Scenario, w *world) *Result {
 		}
 	}
 	abortCh := make(chan string, 1)
+	// class "pusher": once the honest peer holds its 20 outstanding requests, push
+	for i := range sc.Peers {
+		if !sc.Peers[i].Pusher {
+			continue
+		}
+		go func(i int) {
+			for k := 0; k < 600; k++ {
+				full := false
+				for j := range sc.Peers {
+					if sc.Peers[j].Honest && atomic.LoadInt32(&h.reqs[j]) >= 20 {
+						full = true
+					}
+				}
+				if full {
+					break
+				}
+				time.Sleep(5 * time.Millisecond)
+			}
+			h.reactors[i].push()
+		}(i)
+	}
 	// class "leftover": once its ahead blocks have been delivered the liar leaves, or answers the low heights
 	for i := range sc.Peers {
 		if len(sc.Peers[i].Ahead) == 0 {
@@ -1110,6 +1136,18 @@ func (h *harness) evaluate(res *Result) {
 		add("v0-canonical-blocks-rejected", "honest peers were dropped %d times for \"validation error\" although only %d lying peers ever connected: the node rejects canonical blocks carrying their canonical commits", honestValDrops, nLiars)
 	}
 
+	// class "pusher": only honest answers to requests and unsolicited pushes are on the wire, nothing
+	// the honest peer does can be wrong and no request is ever redone: it must not be dropped
+	if sc.Class == "pusher" && sc.Version != "v2" && res.ElapsedMs < 25000 {
+		for _, p := range res.Peers {
+			for _, why := range p.Removed {
+				if p.Honest && why != "<nil>" {
+					add("v0-honest-peer-dropped-because-of-unsolicited-blocks", "honest peer %s, which only answered the requests it was given, was dropped (%s) while another peer pushed blocks nobody had asked it for", p.Name, why)
+					break
+				}
+			}
+		}
+	}
 	if sc.Version == "v0" || sc.Version == "v1" {
 		before := len(res.Findings)
 		mr, md, su := h.pairOracles(evs, handSeq, add)
